@@ -241,4 +241,42 @@ theorem LinkB_lp_next (big : Bool) (p : Nat) (hp : 0 < p) (acc chunk : List Nat)
   funext j
   by_cases hj : j = 0 <;> simp [hj]
 
+theorem runB_onError (e : Err) (s : BSt) : runB (BM.onError e) s = (.ok (), { s with errs := s.errs ++ [e] }) := rfl
+theorem runB_toBytes_ok (big : Bool) (p n : Nat) (h : n < 256 ^ p) (s : BSt) :
+    runB (BM.toBytes big p n) s = (.ok (toBytes big p n), s) := by
+  simp only [BM.toBytes, h, if_true]; rfl
+theorem runB_toBytes_err (big : Bool) (p n : Nat) (h : ¬ n < 256 ^ p) (s : BSt) :
+    runB (BM.toBytes big p n) s = (.error "OverflowError", s) := by
+  simp only [BM.toBytes, h, if_false]; rfl
+
+theorem pow_mtu (p : Nat) : 2 ^ (p * 8) = 256 ^ p := by
+  rw [Nat.mul_comm, Nat.pow_mul]
+
+/-- **`length_prefix.frame.on_next`**, generated from rxsci/framing/length_prefix.py, is the model's `lpFrame`: an item that fits
+its prefix is emitted as prefix ++ item and nothing else happens; an item that does not fit is never emitted — the closure ends
+with `OverflowError` (after notifying `ValueError` when the item is longer than `mtu`). -/
+theorem LinkB_lp_frame (big : Bool) (p : Nat) (item : List Nat) (s : BSt) :
+    match lpFrame big p item with
+    | some x => BM.run (Gen.lp_frame_on_next p big item) s = (.ok (), { s with out := s.out ++ [x] })
+    | none => ∃ s', BM.run (Gen.lp_frame_on_next p big item) s = (.error "OverflowError", s') ∧ s'.out = s.out := by
+  have hrun : ∀ (m : BM Unit) s, BM.run m s = runB m s := fun _ _ => rfl
+  unfold lpFrame
+  by_cases h : item.length < 256 ^ p
+  · simp only [h, if_true]
+    rw [hrun]
+    unfold Gen.lp_frame_on_next
+    have hn : ¬ item.length > 2 ^ (p * 8) := by rw [pow_mtu]; omega
+    simp only [hn, if_false, runB_bind, runB_toBytes_ok big p _ h, runB_emit]
+  · simp only [h, if_false]
+    by_cases hg : item.length > 2 ^ (p * 8)
+    · refine ⟨{ s with errs := s.errs ++ ["ValueError"] }, ?_, rfl⟩
+      rw [hrun]
+      unfold Gen.lp_frame_on_next
+      simp only [hg, if_true, runB_bind, runB_onError, runB_toBytes_err big p _ h]
+    · refine ⟨s, ?_, rfl⟩
+      rw [hrun]
+      unfold Gen.lp_frame_on_next
+      simp only [hg, if_false, runB_bind, runB_toBytes_err big p _ h]
+
+
 end Rx
